@@ -29,6 +29,7 @@ from vlib.val import line
 from vlib.compare import diff, Err
 
 ID = 'C04'
+PYOBJECT_METHODS = ['insert_knot']   # splineobject.py methods re-translated and proved equal to the hand model each run
 PYBASIS_METHODS = ['insert_knot']   # basis.py methods re-translated and proved equal to the hand model each run
 # theorems of this property stated for the object evaluator `Obj.evaluate` (bridge through C02)
 EXTRA_THEOREMS = [('Splipy.Properties.Bridge', 'Splipy/Properties/Bridge.lean', 'Bridge_C04_')]
@@ -49,7 +50,8 @@ REQUIRED_TAGS = ['kind=basis', 'kind=history', 'kind=refine', 'kind=geometric', 
                  'pardim=1', 'pardim=2', 'pardim=3', 'refine=all', 'refine=one-dir', 'refine=per-dir', 'interior-mult>=2',
                  'geometric:reverse@periodic-dir', 'geometric:forward@periodic-dir', 'center@periodic-dir', 'edge@periodic-dir',
                  'geometric:reverse@periodic-dir,pardim=1', 'geometric:reverse@periodic-dir,pardim=2',
-                 'geometric:reverse@periodic-dir,pardim=3']
+                 'geometric:reverse@periodic-dir,pardim=3',
+                 'periodic-cover-branch', 'periodic-end-seam-mult>=2']     # the two repaired paths of periodic insert_knot
 
 TOLF = 1e-10
 ASSUMPTIONS = [
